@@ -8,15 +8,15 @@ open Rx Rx.Gen.Filter
 def absFilter (g : FilterObserver) : St1 := .filter g.filter
 
 theorem tie_Filter_next (g : FilterObserver) (v : Val) :
-    (FilterObserver.next g v).map (fun r => (absFilter r.1, r.2)) = some (St1.onNext (absFilter g) v) := by
+    (FilterObserver.next g v).map (fun r => (absFilter r.1, r.2)) = some (Rs.lift (St1.onNext (absFilter g) v)) := by
   rcases g with ⟨⟩ <;> rs_tie [FilterObserver.next, absFilter, St1.onNext]
 
 theorem tie_Filter_error (g : FilterObserver) (e : Err) :
-    (FilterObserver.error g e).map (fun r => r.2) = some (St1.onError' (absFilter g) e).2 := by
+    (FilterObserver.error g e).map (fun r => r.2) = some ((St1.onError' (absFilter g) e).2.map Rs.Ev.n) := by
   rcases g with ⟨⟩ <;> rs_tie [FilterObserver.error, absFilter, St1.onError']
 
 theorem tie_Filter_complete (g : FilterObserver) :
-    (FilterObserver.complete g).map (fun r => r.2) = some (St1.onComplete' (absFilter g)).2 := by
+    (FilterObserver.complete g).map (fun r => r.2) = some ((St1.onComplete' (absFilter g)).2.map Rs.Ev.n) := by
   rcases g with ⟨⟩ <;> rs_tie [FilterObserver.complete, absFilter, St1.onComplete']
 
 
